@@ -393,6 +393,13 @@ def check_main(pid, tier, only=None, njobs=None, keep=False):
             subprocess.run(['rm', '-rf', tmpdir])
 
 
+DEFAULT_STUBS = [
+    "math (module global of every library module) -> shim: sqrt/exp/erf/erfc become Ackermannised applications with eager congruence; isclose/floor/ceil/trunc/fabs exact; rest delegated",
+    "openskill.models.weng_lin.common._normal -> stub: cdf/pdf of symbolic arguments become Ackermannised applications; inv_cdf and concrete arguments evaluated by the library",
+    "float, int, round, max, min as module globals of every library module -> identity on the term / fresh integer term with the exact relation / ITE terms",
+]
+
+
 def write_evidence(mod, pid, tier, seed, results, wall, nviol, replayed, spurious, known_hits, timeouts):
     info = getattr(mod, 'INFO', {})
     ob = sum(r['obligations'] for r in results)
@@ -430,7 +437,7 @@ def write_evidence(mod, pid, tier, seed, results, wall, nviol, replayed, spuriou
         'functions_encoded': funcs,
         'bounds': info.get('bounds', {}).get(tier, info.get('bounds', {})),
         'outside_claim': info.get('outside', []),
-        'stubs': info.get('stubs', []),
+        'stubs': info.get('stubs') or DEFAULT_STUBS,
         'axioms': info.get('axioms', []),
         'vacuity': {
             'harnesses_checked': sum(r.get('vacuity', {}).get('checked', 0) for r in results),
